@@ -76,6 +76,9 @@ def variants():
     # the pad width int(halo/dx) = 3 sits on a rounding knife-edge (80 // dx is 2).  The oracle is the uncached solve of the
     # same request, so nothing here depends on which side of the edge the library falls, only on the cache agreeing with it.
     knife = dict(srf_flx=np.ones((3, 3)), domain=(80.0, 80.0), modes=(64, 64), meas_pt=(26.0, 53.0))
+    # a single row of cells with several output levels (the solver squeezes the singleton axis away)
+    V["single-row"] = dict(srf_flx=np.ones((1, 8)), domain=(80.0, 15.0), modes=(64, 64), meas_pt=(30.0, 0.0), levels=[4, 1, 2])
+    V["single-row-1level"] = dict(srf_flx=np.ones((1, 8)), domain=(80.0, 15.0), modes=(64, 64), meas_pt=(30.0, 0.0), levels=[2])
     V["knife-halo80"] = dict(knife, halo=80.0)
     V["knife-haloNone"] = dict(knife, halo=None)
     V["knife-halo70"] = dict(knife, halo=70.0)
